@@ -12,6 +12,8 @@ Static clauses decided (necessary conditions of C31):
          processed (a previous call that raised half-way must not leave entries behind that are then served as current values),
          values are read through attr.__get__ (current session state) and the table is cleared again before returning.
  FLUSH   Entity.to_dict flushes a modified live session before reading, and reads values through attr.__get__.
+ INCLUDE Database.to_json reports every attribute the caller lists in include= (unless excluded): lazy attributes and collections are
+         skipped only when they were not asked for.
  PICKLE  Entity.__reduce__ refuses deleted, created and modified objects before building the state (only database-backed
          state is pickled) and hands it to unpickle_entity, which goes through the identity map and _db_set_.
  MIX     a Bag refuses objects of another database or another session.
@@ -104,9 +106,39 @@ def run(ctx):
         ts_ = [t for t in g.nodes if t.kind == 'test' and norm(t.ast) == want]
         ok = bool(ts_) and all(g.exit.id not in g.reach([y for y, lab in g.succ[t.id] if lab == 'T']) for t in ts_)
         ctx.ob('C31-MIX.foreign-object-rejected', pu, want, ok, '' if ok else 'Bag._put_object no longer rejects `%s`' % want)
+    # ---------------------------------------------------------------- INCLUDE
+    # to_json(include=[...]): an attribute the caller asked for explicitly (and did not exclude) is never skipped by the attribute filter --
+    # under `attr in include` and `attr not in exclude` no `continue` of the attribute loop is reachable before the value is read
+    from ..typestate import eval_test
+    tj = repo.fn(CORE, 'Database.to_json'); g = cg.cfg(tj)
+    loops = [x for x in g.nodes if x.kind == 'iter' and norm(x.ast.iter).endswith('._attrs_') and any('include' in norm(t) for t in ast.walk(x.ast) if isinstance(t, ast.Compare))]
+    ctx.need(len(loops) >= 1, 'C31-INCLUDE: attribute loop with an include filter not found in Database.to_json')
+    for L in loops:
+        av = norm(L.ast.target)
+        def atom(text, node):
+            t = text.replace(' ', '')
+            if t == av + 'inexclude': return False
+            if t == av + 'ininclude': return True
+            if t == av + 'notininclude': return False
+            if t == av + 'notinexclude': return True
+            return None
+        def edge_ok(x, y, lab):
+            n_ = g.nodes[x]
+            if n_.kind != 'test' or lab not in ('T', 'F'): return True
+            v = eval_test(n_.ast, atom)
+            return v is None or v == (lab == 'T')
+        body_first = [x for x in g.nodes if x.stmt is L.ast.body[0]][:1]
+        reads = [x for x in nodes_calling(g, lambda c: isinstance(c.func, ast.Attribute) and c.func.attr == '__get__') if any(x.ast in ast.walk(b) or x.stmt is b for b in L.ast.body)]
+        conts = [x for x in g.nodes if x.kind == 'stmt' and isinstance(x.ast, ast.Continue) and any(x.ast in ast.walk(b) for b in L.ast.body)]
+        r = g.reach(body_first, avoid=reads, edge_ok=edge_ok)
+        bad = [c for c in conts if c.id in r]
+        ctx.ob('C31-INCLUDE.explicitly-included-attribute-is-reported', tj, bad[0].ast if bad else L.ast.iter, bool(reads) and not bad,
+               '' if (reads and not bad) else 'an attribute listed in include= can still be skipped (`continue` at line %d is reachable with `%s in include`): to_json silently '
+               'leaves out a value the caller asked for' % (bad[0].lineno if bad else 0, av), node=bad[0].ast if bad else L.ast)
 
 
 MUTANTS = [
+    dict(id='C31-i1', file='pony/orm/core.py', fn='Database.to_json', old="                    if attr in exclude: continue\n                    if attr in include: pass\n", new="                    if attr in exclude or attr.lazy: continue\n                    if attr in include: pass\n", expect='C31-INCLUDE'),
     dict(id='C31-m1', file='pony/orm/serialization.py', fn='Bag._reduce_composite_pk', old=".replace('*', '**').replace(',', '*,')", new=".replace(',', '*,').replace('*', '**')", expect='C31-ESC'),
     dict(id='C31-m2', file='pony/orm/serialization.py', fn='Bag._reduce_composite_pk', old=".replace('*', '**').replace(',', '*,')", new=".replace(',', '*,')", expect='C31-ESC'),
     dict(id='C31-m3', file='pony/orm/serialization.py', fn='Bag.to_dict', old='    def to_dict(bag):\n        bag.dicts.clear()\n', new='    def to_dict(bag):\n', expect='C31-FRESH.scratch-table-cleared-before'),
